@@ -1,4 +1,5 @@
 """Shared queries used by the per-property rule modules."""
+import re
 from . import flow as FL
 from . import cfg as CF
 from .facts import callee_res, callee_path
@@ -62,12 +63,41 @@ def const_str(op):
     return None
 
 
+def promoted_strs(fn, op):
+    """string literals of the promoted body an operand `const fn::promoted[i]` refers to"""
+    v = FL.op_const(op)
+    if isinstance(v, dict) and "o" in v:
+        m = re.search(r"promoted\[(\d+)\]$", v["o"])
+        if m and int(m.group(1)) < len(fn.prom):
+            out = []
+            for ty, val in fn.prom[int(m.group(1))]:
+                if isinstance(val, dict) and "s" in val:
+                    out.append(val["s"])
+                elif isinstance(val, dict) and "b" in val:
+                    out.append(bytes(val["b"]).decode("latin-1"))
+            return out
+    return []
+
+
+def fn_strs(fn):
+    """every string literal a body mentions, promoted temporaries included"""
+    out = set(b.decode("utf-8", "replace") for _, b in FL.str_consts(fn))
+    for pr in fn.prom:
+        for ty, val in pr:
+            if isinstance(val, dict) and "s" in val:
+                out.add(val["s"])
+    return out
+
+
 def resolve_str_operand(fn, op, depth=6):
     """string literal carried by an operand: constant, or a local defined once from a constant
     (through use / unsize cast / `.into()`-style single-argument conversion calls)"""
     s = const_str(op)
     if s is not None:
         return s
+    ps = promoted_strs(fn, op)
+    if len(ps) == 1:
+        return ps[0]
     if depth == 0:
         return None
     pl = FL.op_place(op)
@@ -410,3 +440,147 @@ def cond_atoms(fn, op, depth=6):
 
 
 rvalue_operands = FL.rvalue_operands
+
+
+# ---------------------------------------------------------------------------------------------
+# dictionary keys read through helpers (P6b): follows crate-local callees and closures, carrying
+# string-literal arguments into the callee's parameters, tuple-field sensitive on returned tuples
+
+DICT_GETTERS = ("PdfDictionary::get", "PdfDictionary::get_type", "PdfDictionary::contains_key", "Dictionary::get",
+                "get_dict_integer", "get_integer")
+
+
+def _tuple_elems(fn, op):
+    pl = FL.op_place(op)
+    if pl is None or pl[1]:
+        return None
+    ds = [d for d in FL.flow(fn).defs.get(pl[0], ()) if d[0] == "stmt"]
+    for d in ds:
+        rv = fn.blocks[d[1]][0][d[2]][2]
+        if rv[0] == "agg" and rv[1][0] == "tup":
+            return rv[2]
+    return None
+
+
+def _strs_of(fn, op, penv):
+    s = resolve_str_operand(fn, op)
+    if s is not None:
+        return {s}
+    out = set()
+    if penv:
+        for l in FL.flow(fn).back_slice(FL.op_locals(op))[0]:
+            out |= penv.get(l, set())
+    return out
+
+
+def _callsite_env(fn, term, f2, penv):
+    env = {}
+    args = term[2]
+    if f2.kind == "Closure":
+        elems = _tuple_elems(fn, args[1]) if len(args) > 1 else None
+        for i, e in enumerate(elems or []):
+            ss = _strs_of(fn, e, penv)
+            if ss:
+                env[2 + i] = ss
+    else:
+        for i, a in enumerate(args):
+            ss = _strs_of(fn, a, penv)
+            if ss:
+                env[1 + i] = ss
+    return env
+
+
+def keys_read_deep(facts, fid, depth=3, penv=None, _stack=()):
+    """constant dictionary keys that reach a getter's key argument inside fid, its closures and the
+    crate-local functions it calls (string literals are carried into callee parameters)"""
+    out = set()
+    if fid in _stack:
+        return out
+    for fn in group(facts, fid):
+        env = penv if fn.id == fid else None
+        for b, c, args, dest, t, u in fn.calls():
+            if not isinstance(c, dict):
+                continue
+            if is_call_to(c, DICT_GETTERS):
+                for a in args[1:]:
+                    out |= _strs_of(fn, a, env)
+                continue
+            r = c.get("r")
+            f2 = facts.fns.get(r)
+            if f2 is None or depth == 0 or (fn.parent or fn.id) == (f2.parent or f2.id) and f2.kind != "Closure":
+                continue
+            if f2.kind == "Closure" and not c.get("p", "").startswith("std::ops::Fn"):
+                continue
+            env2 = _callsite_env(fn, fn.blocks[b][1], f2, env)
+            if f2.kind == "Closure":
+                out |= _keys_in_fn(facts, f2, env2)
+            else:
+                out |= keys_read_deep(facts, r, depth - 1, env2, _stack + (fid,))
+    return out
+
+
+def _keys_in_fn(facts, fn, env):
+    out = set()
+    for b, c, args, dest, t, u in fn.calls():
+        if isinstance(c, dict) and is_call_to(c, DICT_GETTERS):
+            for a in args[1:]:
+                out |= _strs_of(fn, a, env)
+    return out
+
+
+def dict_key_sources(facts, fn, roots, depth=3, penv=None):
+    """dictionary keys K such that the value of `dict.get(K)` may flow into the locals `roots` of fn
+    (flow-insensitive slice).  Calls to crate-local functions and closures are entered: literal
+    arguments are bound to the callee's parameters, and when the callee returns a tuple only the
+    elements the caller's slice projects are followed."""
+    fl = FL.flow(fn)
+    seen, drecs = fl.back_slice(roots)
+    keys = set()
+    for b, c in fl.calls_in_slice(drecs):
+        if not isinstance(c, dict):
+            continue
+        t = fn.blocks[b][1]
+        if is_call_to(c, DICT_GETTERS):
+            for a in t[2][1:]:
+                keys |= _strs_of(fn, a, penv)
+            continue
+        f2 = facts.fns.get(c.get("r"))
+        if f2 is None or depth == 0 or f2.id == fn.id:
+            continue
+        env2 = _callsite_env(fn, t, f2, penv)
+        used = None
+        if f2.ret and "(" in f2.ret and t[3]:
+            idx = set()
+            whole = False
+            for d in drecs:
+                if d[0] != "stmt":
+                    continue
+                st = fn.blocks[d[1]][0][d[2]]
+                for pl in FL.rvalue_places(st[2]) + [FL.op_place(o) for o in FL.rvalue_operands(st[2]) if FL.op_place(o)]:
+                    ty = fn.locals[pl[0]] if pl[0] < len(fn.locals) else ""
+                    if not ty.startswith("("):
+                        continue
+                    if t[3][0] not in fl.back_slice([pl[0]])[0]:
+                        continue
+                    fs = [p for p in pl[1] if isinstance(p, list) and p[0] == "f"]
+                    if fs:
+                        idx.add(fs[0][1])
+                    elif st[1][0] in seen and not fn.locals[st[1][0]].startswith("("):
+                        whole = True
+            if idx and not whole:
+                used = idx
+        fl2 = FL.flow(f2)
+        roots2 = [0]
+        if used is not None:
+            s0, d0 = fl2.back_slice([0])
+            r2 = []
+            for d in d0:
+                if d[0] == "stmt":
+                    rv = f2.blocks[d[1]][0][d[2]][2]
+                    if rv[0] == "agg" and rv[1][0] == "tup" and len(rv[2]) > max(used):
+                        for i in used:
+                            r2 += FL.op_locals(rv[2][i])
+            if r2:
+                roots2 = r2
+        keys |= dict_key_sources(facts, f2, roots2, depth - 1, env2)
+    return keys
